@@ -255,22 +255,47 @@ class Walk:
 
 def summary(it, item):
     name = type(item).__name__
+    try:
+        gf, gfo = [it.E(x) for x in item.get_facts()], True
+    except Exception:
+        gf, gfo = [], False
     if name == "Calculation":
-        return {"k": "calc", "e": it.E(item.start), "l": 0, "r": 0, "pd": ""}
+        return {"k": "calc", "e": it.E(item.start), "l": 0, "r": 0, "pd": "", "gf": gf, "gfo": gfo}
     if name not in ("FuncDef", "Goal"):
         raise Unobservable("item of type " + name)
     e = item.eq if name == "FuncDef" else item.goal
     l, r, pd = sides(it, e)
-    return {"k": KIND.get(name, name), "e": it.E(e), "l": l, "r": r, "pd": pd}
+    return {"k": KIND.get(name, name), "e": it.E(e), "l": l, "r": r, "pd": pd, "gf": gf, "gfo": gfo}
+
+
+def walk(it, file, item):
+    """a Walk; anything that cannot be read through the public attributes is `not observable`, never a crash"""
+    try:
+        return Walk(it, file, item)
+    except Unobservable:
+        raise
+    except RecursionError:
+        raise Unobservable("walk: RecursionError")
+    except Exception as ex:
+        raise Unobservable("walk: %s: %s" % (type(ex).__name__, str(ex)[:100]))
 
 
 class View:
     """projection of a whole file: walks, digests, summaries"""
 
     def __init__(self, it, file):
-        self.walks = [Walk(it, file, x) for x in list(file.content)]
+        try:
+            content = list(file.content)
+        except Exception as ex:
+            raise Unobservable("file.content: " + type(ex).__name__)
+        self.walks = [walk(it, file, x) for x in content]
         self.digs = [it.D(w.nodes) for w in self.walks]
-        self.items = [summary(it, x) for x in list(file.content)]
+        try:
+            self.items = [summary(it, x) for x in content]
+        except Unobservable:
+            raise
+        except Exception as ex:
+            raise Unobservable("summary: " + type(ex).__name__)
 
 
 # ------------------------------------------------------------------------------------------------ sessions
@@ -351,7 +376,7 @@ class Session:
     def find(self, i, lab):
         """the real object for (item, label): through get_by_label when working like the server, else through the attributes"""
         item = self.file.content[i - 1]
-        w = Walk(self.it, self.file, item)
+        w = walk(self.it, self.file, item)
         if tuple(lab) not in w.objs:
             raise KeyError("no node %s" % (lab,))
         if self.mode_b:
@@ -363,7 +388,8 @@ class Session:
     def do(self, o):
         """perform one operation on the real objects; returns (oc, exc, own, abstract op)"""
         it, f, nm = self.it, self.file, o["nm"]
-        a = {"nm": nm, "i": o.get("i", 0), "lab": list(o.get("lab", [])), "id": o.get("id", 0), "rule": 0, "a": 0, "b": 0, "cs": []}
+        a = {"nm": nm, "i": o.get("i", 0), "lab": list(o.get("lab", [])), "id": o.get("id", 0), "rule": 0, "a": 0, "b": 0, "cs": [],
+             "hasn": False, "nsl": []}
         dom = True
         try:
             if nm == "adddef":
@@ -402,10 +428,14 @@ class Session:
                 n = len(calc.steps)
                 dom = -1 <= o["id"] <= n - 1
                 via = o.get("via", "id")
+                # what app/integral.py does: perform on the selected object, then ask for the label of the new step
                 if via == "step" and 0 <= o["id"] <= n - 1:
-                    quiet(lambda: calc.steps[o["id"]].perform_rule(rule))
+                    sel, sl = calc.steps[o["id"]], list(o["lab"]) + [o["id"]]
+                    quiet(lambda: sel.perform_rule(rule))
+                    self.next_label(a, sel, sl)
                 elif via == "end" and o["id"] == n - 1:
                     quiet(lambda: calc.perform_rule(rule))
+                    self.next_label(a, obj, list(o["lab"]))
                 else:
                     quiet(lambda: calc.perform_rule(rule, o["id"]))
             elif nm == "clear":
@@ -417,10 +447,19 @@ class Session:
             else:
                 raise ValueError("x07: unknown operation " + nm)
             return "ok", "", False, a, dom
+        except Unobservable:
+            raise
         except RecursionError:
             return "exc", "RecursionError", False, a, dom
         except Exception as ex:
             return "exc", type(ex).__name__, isinstance(ex, AssertionError), a, dom
+
+    def next_label(self, a, sel, lab):
+        try:
+            a["nsl"] = list(compstate.get_next_step_label(sel, compstate.Label(list(lab))).data)
+            a["hasn"] = True
+        except Exception:
+            pass
 
     def step(self, o, log=True, expect=None):
         """one operation (or reload) of the session, logged as an event when asked"""
@@ -439,7 +478,12 @@ class Session:
         except Unobservable as ex:
             self.out.emit({"kind": "unobs", "src": self.src, "key": self.key(), "why": str(ex)})
             before, log = None, False
-        oc, exc, own, a, dom = self.do(o)
+        try:
+            oc, exc, own, a, dom = self.do(o)
+        except Unobservable as ex:
+            self.hist.append(o)
+            self.out.emit({"kind": "unobs", "src": self.src, "key": self.key(), "why": str(ex)})
+            return "unobs"
         self.hist.append(o)
         if not log:
             return oc
@@ -464,7 +508,7 @@ class Session:
         `extra` seeded perturbations of them) or an explicit list of labels"""
         for i, item in enumerate(list(self.file.content)):
             try:
-                w = Walk(self.it, self.file, item)
+                w = walk(self.it, self.file, item)
             except Unobservable:
                 continue
             if universe == "grid":
@@ -511,12 +555,12 @@ class Session:
                     p["oc"], p["exc"] = "foreign", type(ex).__name__
                 probes.append(p)
             self.out.emit({"kind": "labels", "src": self.src, "key": self.key() + "|labels:%d" % (i + 1), "i": i + 1, "t": w.nodes,
-                           "probes": probes, "hist": json.dumps(self.hist)})
+                           "probes": probes, "modeb": self.mode_b, "hist": json.dumps(self.hist)})
 
     def reload(self, log=True, cont=False):
         it = self.it
         ev = {"kind": "reload", "src": self.src, "key": self.key() + "|reload", "oc": "ok", "exc": "", "bd": [], "ad": [], "ex1": [], "ex2": [],
-              "hist": json.dumps(self.hist)}
+              "modeb": self.mode_b, "hist": json.dumps(self.hist)}
         new = None
         try:
             ev["bd"] = self.view().digs
@@ -666,7 +710,7 @@ def rand_op(rnd, s):
         return {"nm": "reload"}
     i = rnd.randrange(1, n + 1)
     try:
-        w = Walk(s.it, f, f.content[i - 1])
+        w = walk(s.it, f, f.content[i - 1])
     except Unobservable:
         return None
     goals = [x for x in w.nodes if x["k"] == "goal"]
@@ -748,7 +792,7 @@ def mode_examples(outp, seed, maxfiles=0, only=None):
             cands = []
             for i, item in enumerate(s.file.content):
                 try:
-                    w = Walk(s.it, s.file, item)
+                    w = walk(s.it, s.file, item)
                 except Unobservable:
                     continue
                 for nd in w.nodes:
@@ -816,7 +860,7 @@ def mode_rules(outp):
     it = Intern(False)
     seen = set()
     for name, mk in rule_instances():
-        ev = {"kind": "rule", "src": "rules", "key": "rule:" + name, "rule": name, "oc": "ok", "exc": "", "ex1": 0, "ex2": 0}
+        ev = {"kind": "rule", "src": "rules", "key": "rule:" + name, "rule": name, "oc": "ok", "exc": "", "ex1": 0, "ex2": 0, "inmut": False}
         try:
             r = quiet(mk)
             d1 = json.loads(json.dumps(r.export()))
@@ -826,7 +870,9 @@ def mode_rules(outp):
         seen.add(type(r).__name__)
         ev["ex1"] = it.D(d1)
         try:
-            r2 = quiet(compstate.parse_rule, json.loads(json.dumps(d1)))
+            arg = json.loads(json.dumps(d1))
+            r2 = quiet(compstate.parse_rule, arg)
+            ev["inmut"] = arg != d1          # parse_rule changed the dictionary it was given
             ev["ex2"] = it.D(json.loads(json.dumps(r2.export())))
         except Exception as ex:
             ev["oc"], ev["exc"] = "exc", type(ex).__name__
